@@ -618,17 +618,9 @@ def run(ctx):
             sh = shapes(roots)
             payload = {"wbxml": c["doc"].hex(), "forced": c["forced"], "mode": [g, ind], "keep_ws": kw, "xml": xml_bytes.decode("utf-8", "replace")[:2000],
                        "oracle": det, "kind": det["kind"], "case_kind": c["kind"]}
+            # the findings D8, D9 and the two literal-xmlns defects (D28, D29) were repaired in /repo
+            # (3c772f6, 0de0008, 32930ca): their shapes are ordinary violations now
             key = None
-            if det["kind"] == "not-well-formed" and "D8-nested-cdata" in sh:
-                key = "D8-nested-cdata"
-            elif "D9-cdata-end-in-text" in sh and det["kind"] in ("not-well-formed", "text", "children", "kind"):
-                key = "D9-cdata-end-in-text"
-            elif "D8-element-in-cdata" in sh and det["kind"] in ("children", "kind", "text", "not-well-formed"):
-                key = "D8-element-in-cdata"
-            elif det["kind"] == "namespace-on-literal" and "D22-literal-root-xmlns" in sh:
-                key = "D22-literal-root-xmlns"
-            elif det["kind"] == "namespace" and "D23-literal-parent-xmlns" in sh:
-                key = "D23-literal-parent-xmlns"
             if key:
                 pending_hits.setdefault(key, []).append(payload)
             else:
